@@ -174,3 +174,115 @@ def c15_3(R):
         R.ok("mss-stored-after-rescale", b.name)
     else:
         R.fail([b.name, "mss-store"], "set_mss does not store the new mss after rescaling", where=b.where(), instance="mss-stored-after-rescale")
+
+
+TRC = "<congestion::tracing::TracingController as congestion::CongestionController>::"
+RUN_HELPER = "utils::run_before_and_after_if_changed"
+
+
+def _on_every_path(body, item):
+    from utpsa.flow import must_pass_blocks
+    rets = body.return_blocks()
+    if not rets:
+        return False
+    ok, _bad = must_pass_blocks(body, rets, {item.bb})
+    return ok and item.bb in body.reachable(0)
+
+
+def _returns_only(body, call):
+    """every definition of the return place is (a copy of) the result of `call`"""
+    t = trace(body, Place({"l": 0, "p": []}))
+    if t.kind == "call":
+        return t.root[1] is call and not t.fields
+    if t.kind == "multi":
+        for d in t.root[3]:
+            if isinstance(d, Stmt) and d.rv.kind == "use":
+                dt = trace(body, d.rv.ops[0])
+                if not (dt.kind == "call" and dt.root[1] is call and not dt.fields):
+                    return False
+            elif d is not call:
+                return False
+        return bool(t.root[3])
+    return False
+
+
+@rule("C15.4", ["C15", "C05"], ["E2", "E4"], "the tracing decorator forwards every controller operation, unconditionally and unchanged",
+      "SocketOpts.congestion.tracing wraps the controller in TracingController. Every bound C15/C05 states about `the congestion window` is checked on Cubic, so it holds with tracing on only if the wrapper is "
+      "transparent: each CongestionController method of TracingController (the same set Cubic implements) calls the same method on self.inner with its own parameters in order, on EVERY path - "
+      "directly, or inside the change closure handed to run_before_and_after_if_changed, which itself calls that closure on every path and returns its result - and value-returning methods return "
+      "the inner result. A cached / filtered / conditional forward (e.g. `only when the value changed`) lets the inner controller's state (rwnd in MSS units after set_mss, cwnd after a loss) drift from what the dispatcher told it.")
+def c15_4(R):
+    F = R.facts
+    cub = {b.name[len(CUB):] for b in F.bodies() if b.name.startswith(CUB) and "::{closure" not in b.name}
+    trc = {b.name[len(TRC):] for b in F.bodies() if b.name.startswith(TRC) and "::{closure" not in b.name}
+    R.floor("CongestionController methods implemented by the tracing wrapper", len(trc), 9)
+    for m in sorted(cub - trc):
+        R.fail([TRC + m, "not-forwarded(default-method)"], "Cubic implements CongestionController::%s but the tracing wrapper does not: the trait default runs instead of the inner controller" % m, instance="decorator-forwards")
+    # the helper calls its change closure (3rd parameter) on every path and returns what it returned
+    h = R.body(RUN_HELPER)
+    hc = [t for t in h.calls() if call_matches(t, ("FnOnce::call_once", "FnMut::call_mut", "Fn::call")) and t.args and trace(h, t.args[0]).kind == "param" and trace(h, t.args[0]).root[1] == 3]
+    R.require(len(hc) == 1, "run_before_and_after_if_changed calls its change closure exactly once")
+    helper_ok = _on_every_path(h, hc[0])
+    helper_ret = _returns_only(h, hc[0])
+    if helper_ok and helper_ret:
+        R.ok("helper-runs-change-closure", RUN_HELPER, "maybe_change(obj) on every path; its result is returned")
+    else:
+        R.fail([RUN_HELPER, "change-closure-not-on-every-path" if not helper_ok else "result-not-returned"],
+               "run_before_and_after_if_changed no longer runs the change closure on every path (or drops its result): every traced controller operation becomes conditional", where=hc[0].where(), instance="helper-runs-change-closure")
+    for m in sorted(trc):
+        b = R.body(TRC + m)
+        nargs = b.arg_count
+        found = None
+        # (A) direct forward
+        cands = [(b, t, None) for t in b.calls() if (t.callee or t.resolved or "").endswith("CongestionController>::" + m) or (t.callee or t.resolved or "").endswith("CongestionController::" + m)]
+        # (B) inside the change closure handed to the helper
+        helper_calls = [t for t in b.calls() if t.resolved == RUN_HELPER]
+        for hcall in helper_calls:
+            if len(hcall.args) < 3:
+                continue
+            ct = trace(b, hcall.args[2])
+            if ct.kind == "rv" and ct.root[1].rv.kind == "agg" and ct.root[1].rv.j.get("ak") == "closure":
+                cb = F.body(ct.root[1].rv.j["closure"])
+                if cb is not None:
+                    for t in cb.calls():
+                        if (t.callee or t.resolved or "").endswith("CongestionController>::" + m) or (t.callee or t.resolved or "").endswith("CongestionController::" + m):
+                            cands.append((cb, t, hcall))
+        if not cands:
+            R.fail([TRC + m, "no-forward"], "TracingController::%s does not call inner.%s at all" % (m, m), where=b.where(), instance="decorator-forwards")
+            continue
+        problems = []
+        for cb, t, via in cands:
+            p = []
+            recv = trace(cb, t.args[0])
+            if recv.last_field != "TracingController.inner":
+                p.append("receiver-not-self.inner")
+            if len(t.args) != nargs:
+                p.append("arity")
+            else:
+                for k in range(1, nargs):
+                    at = trace(cb, t.args[k])
+                    if not (is_fn_param(cb, at, k + 1) and not [f for f in at.fields if not f.startswith("tuple.")]):
+                        p.append("arg%d-not-param#%d(%s)" % (k, k + 1, at.describe()))
+            if not _on_every_path(cb, t):
+                p.append("forward-not-on-every-path" + ("(closure)" if via is not None else ""))
+            if via is not None and not _on_every_path(b, via):
+                p.append("helper-call-not-on-every-path")
+            # value: what the method returns is the forward's result
+            ret_ty = b.local_ty(0)
+            if ret_ty not in ("()",):
+                if via is None:
+                    if not _returns_only(b, t):
+                        p.append("inner-result-not-returned")
+                else:
+                    if not _returns_only(b, via) or not _returns_only(cb, t):
+                        p.append("inner-result-not-returned")
+            if not p:
+                found = (cb, t, via)
+                break
+            problems.append(p)
+        if found:
+            R.ok("decorator-forwards", TRC + m, "inner.%s(%s) on every path%s" % (m, ", ".join("param#%d" % (k + 1) for k in range(1, nargs)), " via the change closure" if found[2] is not None else ""))
+        else:
+            pr = sorted(set(x for p in problems for x in p))
+            R.fail([TRC + m] + pr, "with congestion tracing enabled, CongestionController::%s reaches the inner controller only conditionally / altered (%s): the inner window state no longer follows what the "
+                   "dispatcher reported, so the bounds established for Cubic (C15.1-3, C05.1) do not hold for the traced socket" % (m, ", ".join(pr)), where=cands[0][1].where(), instance="decorator-forwards")
